@@ -39,6 +39,8 @@ fn spec(cfg: Config, depth: usize, devs: usize) -> SeqSpec {
                         a.push((Op::HsRead { side: s, msg: Msg::Wire(peer, hs[0].0), cap: Cap::Roomy }, true));
                     }
                     a.push((Op::HsRead { side: s, msg: Msg::Garbage(96, 7), cap: Cap::Roomy }, true));
+                    // a zero-length datagram is not a message either
+                    a.push((Op::HsRead { side: s, msg: Msg::Garbage(0, 0), cap: Cap::Roomy }, true));
                     a.push((Op::ToTransport { side: s }, !fin));
                     a.push((Op::ToStateless { side: s }, !fin));
                     // the public TryFrom<HandshakeState> route must enforce the same rule
@@ -64,6 +66,7 @@ fn spec(cfg: Config, depth: usize, devs: usize) -> SeqSpec {
                         a.push((if stateless { Op::SRead { side: s, nonce, msg: Msg::Wire(peer, k), cap: Cap::Roomy } } else { Op::TRead { side: s, msg: Msg::Wire(peer, k), cap: Cap::Roomy } }, !(can_read && in_seq)));
                     }
                     a.push((if stateless { Op::SRead { side: s, nonce: 0, msg: Msg::Garbage(32, 9), cap: Cap::Roomy } } else { Op::TRead { side: s, msg: Msg::Garbage(32, 9), cap: Cap::Roomy } }, true));
+                    a.push((if stateless { Op::SRead { side: s, nonce: 0, msg: Msg::Garbage(0, 0), cap: Cap::Roomy } } else { Op::TRead { side: s, msg: Msg::Garbage(0, 0), cap: Cap::Roomy } }, true));
                     // one-way patterns: no rekey call - not even one that installs a key for the direction that does
                     // not exist - may lift the rule (once per path: the ops change the key terms)
                     if oneway && !e.steps.iter().any(|st| matches!(st.op, Op::RekeyManual { .. } | Op::RekeyRespManual { .. } | Op::RekeyOut { .. } | Op::RekeyIn { .. }) && st.op.side() == s) {
